@@ -532,6 +532,10 @@ Section Generic.
     - cbn. destruct (ssel a); cbn; reflexivity.
   Qed.
 
+  Lemma dec_inj i a b :
+    a <> i -> b <> i -> (if Nat.ltb i a then a - 1 else a) = (if Nat.ltb i b then b - 1 else b) -> a = b.
+  Proof. intros A B. destruct (Nat.ltb_spec i a), (Nat.ltb_spec i b); lia. Qed.
+
   Lemma delete_node_at_Inv2 (st : drawingT) i :
     Inv2 st -> i < NN st ->
     (forall s, In s (d_segs st) -> touches i s = true -> ssel s = false) ->
@@ -563,7 +567,7 @@ Section Generic.
       destruct (Wk a Ha) as (A & B & C & C0 & C1 & _), (Wk b Hb) as (A' & B' & C' & C0' & C1' & _).
       unfold same_seg in *. destruct (DEC a) as [E0 E1], (DEC b) as [E0' E1'].
       rewrite E0, E1, E0', E1' in S.
-      destruct (Nat.ltb_spec i (s0 a)), (Nat.ltb_spec i (s1 a)), (Nat.ltb_spec i (s0 b)), (Nat.ltb_spec i (s1 b)); lia.
+      destruct S as [[S1 S2]|[S1 S2]]; [left|right]; split; eapply dec_inj; eauto.
     - intros s Hs. rewrite ES in Hs. apply in_map_iff in Hs. destruct Hs as [a [<- Ha]].
       cbn. apply Wk in Ha. tauto.
   Qed.
@@ -828,4 +832,730 @@ Section Generic.
   (* enforcePSLG ends with unselectAll *)
   Lemma enforcePSLG_nosel fuel (st : drawingT) : nosel (enforcePSLG G fuel st).
   Proof. unfold enforcePSLG. apply nosel_unselectAll. Qed.
+
+  (* ---- deleteSelectedNodes: which points and which segments remain ------------------------------ *)
+  Lemma remove_nth_split {T} (l : list T) : forall i, remove_nth l i = firstn i l ++ skipn (S i) l.
+  Proof. induction l as [|a l IH]; intros [|i]; cbn; auto. f_equal. apply IH. Qed.
+
+  Lemma nth_split' {T} (l : list T) dflt : forall i, i < length l ->
+    l = firstn i l ++ nth i l dflt :: skipn (S i) l.
+  Proof.
+    induction l as [|a l IH]; intros [|i] H; cbn in *; try lia; auto. f_equal. apply IH. lia.
+  Qed.
+
+  Lemma firstn_firstn_app {T} (l r : list T) : forall i, i <= length l -> firstn i (firstn i l ++ r) = firstn i l.
+  Proof. induction l as [|a l IH]; intros [|i] H; cbn in *; try lia; auto. f_equal. apply IH. lia. Qed.
+  Lemma skipn_firstn_app {T} (l r : list T) : forall i, i <= length l -> skipn i (firstn i l ++ r) = r.
+  Proof. induction l as [|a l IH]; intros [|i] H; cbn in *; try lia; auto. apply IH. lia. Qed.
+  Lemma firstn_S_nth {T} (l : list T) dflt : forall i, i < length l -> firstn (S i) l = firstn i l ++ [nth i l dflt].
+  Proof. induction l as [|a l IH]; intros [|i] H; cbn in *; try lia; auto. f_equal. apply IH. lia. Qed.
+
+  Lemma delete_node_at_nodes (st : drawingT) i : d_nodes (delete_node_at st i) = remove_nth (d_nodes st) i.
+  Proof. reflexivity. Qed.
+
+  Definition unsel (n : nodeT) : bool := negb (nsel n).
+
+  Lemma delete_loop_nodes : forall fuel i (st : drawingT),
+    length (d_nodes st) - i <= fuel -> i <= length (d_nodes st) ->
+    d_nodes (delete_nodes_loop G fuel i st) = firstn i (d_nodes st) ++ filter unsel (skipn i (d_nodes st)).
+  Proof.
+    induction fuel as [|fuel IH]; intros i st Hf Hi.
+    - cbn. assert (i = length (d_nodes st)) by lia. subst i.
+      rewrite firstn_all, skipn_all. cbn. rewrite app_nil_r. reflexivity.
+    - cbn [delete_nodes_loop]. destruct (Nat.ltb_spec i (length (d_nodes st))) as [H|H].
+      + pose proof (nth_split' (d_nodes st) (dflt_node G) i H) as SP.
+        fold (node_at G (d_nodes st) i) in SP.
+        assert (SK : skipn i (d_nodes st) = node_at G (d_nodes st) i :: skipn (S i) (d_nodes st)).
+        { rewrite SP at 1. rewrite skipn_firstn_app by lia. reflexivity. }
+        destruct (nsel (node_at G (d_nodes st) i)) eqn:S.
+        * rewrite IH; rewrite delete_node_at_nodes, remove_nth_split.
+          -- rewrite firstn_firstn_app, skipn_firstn_app by lia. rewrite SK. cbn. unfold unsel at 2. rewrite S. reflexivity.
+          -- rewrite app_length, firstn_length, skipn_length. lia.
+          -- rewrite app_length, firstn_length, skipn_length. lia.
+        * rewrite IH by lia. rewrite (firstn_S_nth _ (dflt_node G)) by lia.
+          fold (node_at G (d_nodes st) i). rewrite SK. cbn. unfold unsel at 2. rewrite S. cbn.
+          rewrite <- app_assoc. reflexivity.
+      + assert (i = length (d_nodes st)) by lia. subst i.
+        rewrite firstn_all, skipn_all. cbn. rewrite app_nil_r. reflexivity.
+  Qed.
+
+  (* the points that remain are exactly the unselected ones, in their order *)
+  Lemma deleteSelectedNodes_nodes (st : drawingT) :
+    d_nodes (deleteSelectedNodes G st) = filter unsel (d_nodes st).
+  Proof. unfold deleteSelectedNodes. rewrite delete_loop_nodes by lia. reflexivity. Qed.
+
+  (* what a segment refers to: its two end NODES (coordinates, group, properties) and its own attributes *)
+  Definition sview (nodes : list nodeT) (s : seg) := (node_at G nodes (s0 s), node_at G nodes (s1 s), sgrp s, sprop s).
+  Definition cview (st : drawingT) := map (sview (d_nodes st)) (d_segs st).
+  Definition ends_unselected (v : nodeT * nodeT * nat * nat) : bool :=
+    negb (nsel (fst (fst (fst v)))) && negb (nsel (snd (fst (fst v)))).
+
+  Lemma node_at_remove (nodes : list nodeT) i j :
+    j <> i -> node_at G (remove_nth nodes i) (if Nat.ltb i j then j - 1 else j) = node_at G nodes j.
+  Proof.
+    unfold node_at. revert i j. induction nodes as [|a l IH]; intros i j H.
+    - destruct i, (Nat.ltb _ j), j; cbn; auto; destruct (j - 0); auto.
+    - destruct i as [|i].
+      + destruct j as [|j]; [congruence|]. cbn. rewrite Nat.sub_0_r. reflexivity.
+      + destruct j as [|j]; [reflexivity|].
+        change (Nat.ltb (S i) (S j)) with (Nat.ltb i j). cbn [remove_nth].
+        specialize (IH i j). destruct (Nat.ltb_spec i j).
+        * destruct j as [|j]; [lia|]. cbn. cbn in IH. rewrite Nat.sub_0_r in IH. apply IH. lia.
+        * cbn. apply IH. lia.
+  Qed.
+
+  Lemma delete_node_at_cview (st : drawingT) i :
+    segs_unselected st ->
+    cview (delete_node_at st i) = map (sview (d_nodes st)) (filter (fun a => negb (touches i a)) (d_segs st)) /\
+    segs_unselected (delete_node_at st i).
+  Proof.
+    intros U. pose proof (delete_node_at_segs st i (fun s Hs _ => U s Hs)) as ES.
+    assert (EF : filter (fun a => negb (ssel a) && negb (touches i a)) (d_segs st) =
+                 filter (fun a => negb (touches i a)) (d_segs st)).
+    { apply filter_ext_in. intros a Ha. rewrite (U a Ha). reflexivity. }
+    rewrite EF in ES. split.
+    - unfold cview. rewrite ES, delete_node_at_nodes, map_map. apply map_ext_in.
+      intros a Ha. apply filter_In in Ha. destruct Ha as [_ Ha]. apply negb_true_iff in Ha.
+      unfold touches in Ha. apply orb_false_iff in Ha. destruct Ha as [A B]. apply Nat.eqb_neq in A, B.
+      unfold sview. cbn [dec_above s0 s1 sgrp sprop]. rewrite !node_at_remove; auto.
+    - intros s Hs. rewrite ES in Hs. apply in_map_iff in Hs. destruct Hs as [a [<- Ha]].
+      apply filter_In in Ha. cbn. apply U, Ha.
+  Qed.
+
+  Lemma delete_loop_cview : forall fuel i (st : drawingT),
+    segs_unselected st ->
+    filter ends_unselected (cview (delete_nodes_loop G fuel i st)) = filter ends_unselected (cview st).
+  Proof.
+    induction fuel as [|fuel IH]; intros i st U; [reflexivity|]. cbn [delete_nodes_loop].
+    destruct (Nat.ltb i (length (d_nodes st))); [|reflexivity].
+    destruct (nsel (node_at G (d_nodes st) i)) eqn:S; [|apply IH; auto].
+    destruct (delete_node_at_cview st i U) as [E U'].
+    rewrite IH by exact U'. rewrite E. clear E U U'. unfold cview.
+    induction (d_segs st) as [|a l IHl]; cbn; auto.
+    destruct (touches i a) eqn:T; cbn.
+    - rewrite IHl.
+      assert (X : ends_unselected (sview (d_nodes st) a) = false).
+      { unfold ends_unselected, sview; cbn. unfold touches in T. apply orb_true_iff in T.
+        destruct T as [T|T]; apply Nat.eqb_eq in T; rewrite T, S; cbn; auto. apply andb_false_r. }
+      rewrite X. reflexivity.
+    - rewrite IHl. reflexivity.
+  Qed.
+
+  Lemma node_at_unsel (nodes : list nodeT) j : (forall n, In n nodes -> nsel n = false) -> nsel (node_at G nodes j) = false.
+  Proof.
+    intros H. unfold node_at. destruct (Nat.lt_ge_cases j (length nodes)).
+    - apply H, nth_In; auto.
+    - rewrite nth_overflow by auto. reflexivity.
+  Qed.
+
+  (* after deleting the selected points every remaining segment still refers to the same two end
+     nodes (same coordinates, group, properties) and keeps its own attributes; exactly the segments
+     with a deleted end point disappear; the order is kept *)
+  Theorem delete_renumbers_consistently (st : drawingT) :
+    segs_unselected st ->
+    cview (deleteSelectedNodes G st) = filter ends_unselected (cview st).
+  Proof.
+    intros U. rewrite <- (delete_loop_cview (length (d_nodes st)) 0 st U).
+    fold (deleteSelectedNodes G st). symmetry.
+    assert (A : forall n, In n (d_nodes (deleteSelectedNodes G st)) -> nsel n = false).
+    { intros n Hn. rewrite deleteSelectedNodes_nodes in Hn. apply filter_In in Hn.
+      destruct Hn as [_ Hn]. apply negb_true_iff in Hn. exact Hn. }
+    unfold cview. induction (d_segs (deleteSelectedNodes G st)) as [|a l IH]; cbn; auto.
+    unfold ends_unselected at 1, sview at 1. cbn. rewrite !node_at_unsel by exact A. cbn. f_equal. apply IH.
+  Qed.
+
+  (* ---- which commands end with an empty selection ------------------------------------------------ *)
+  Lemma deleteSelectedNodes_segs_unsel (st : drawingT) :
+    segs_unselected st -> segs_unselected (deleteSelectedNodes G st).
+  Proof.
+    unfold deleteSelectedNodes. generalize (length (d_nodes st)) as fuel. intros fuel.
+    generalize 0 as i. revert st. induction fuel as [|fuel IH]; intros st i U; [exact U|]. cbn [delete_nodes_loop].
+    destruct (Nat.ltb i (length (d_nodes st))); [|exact U].
+    destruct (nsel (node_at G (d_nodes st) i)); [|apply IH; auto].
+    apply IH. apply delete_node_at_cview. exact U.
+  Qed.
+
+  Lemma deleteSelectedNodes_labs (st : drawingT) : d_labs (deleteSelectedNodes G st) = d_labs st.
+  Proof.
+    unfold deleteSelectedNodes. generalize (length (d_nodes st)) as fuel. intros fuel.
+    generalize 0 as i. revert st. induction fuel as [|fuel IH]; intros st i; [reflexivity|]. cbn [delete_nodes_loop].
+    destruct (Nat.ltb i (length (d_nodes st))); [|reflexivity].
+    destruct (nsel (node_at G (d_nodes st) i)); rewrite IH; reflexivity.
+  Qed.
+
+  Definition clears_selection (o : opT) : bool :=
+    match o with
+    | OSetGroup _ | OClearSelected | ODeleteSelected => true
+    | OMoveTranslate _ _ m | OMoveRotate _ _ _ _ m | OScale _ _ _ m | OCopyTranslate _ _ _ m
+    | OCopyRotate _ _ _ m => mode_valid m
+    | OMirror x0 y0 x1 y1 m =>
+        mode_valid m && match g_mirror_axis G x0 y0 x1 y1 with Some _ => true | None => false end
+    | _ => false
+    end.
+
+  Theorem step_clears_selection fuel (st : drawingT) (o : opT) :
+    clears_selection o = true -> nosel (step G fuel st o).
+  Proof.
+    destruct o; cbn [clears_selection step]; try discriminate; intros H.
+    - apply nosel_unselectAll.
+    - apply nosel_unselectAll.
+    - (* ODeleteSelected *)
+      set (st1 := deleteSelectedSegments st).
+      assert (U1 : segs_unselected st1).
+      { intros s Hs. cbn in Hs. apply filter_In in Hs. destruct Hs as [_ Hs]. apply negb_true_iff in Hs. exact Hs. }
+      repeat split.
+      + intros n Hn. change (In n (d_nodes (deleteSelectedNodes G st1))) in Hn.
+        rewrite deleteSelectedNodes_nodes in Hn. apply filter_In in Hn.
+        destruct Hn as [_ Hn]. apply negb_true_iff in Hn. exact Hn.
+      + change (segs_unselected (deleteSelectedNodes G st1)). apply deleteSelectedNodes_segs_unsel. exact U1.
+      + intros l Hl. change (In l (filter (fun l => negb (lsel l)) (d_labs (deleteSelectedNodes G st1)))) in Hl.
+        apply filter_In in Hl. destruct Hl as [_ Hl]. apply negb_true_iff in Hl. exact Hl.
+    - rewrite H. apply enforcePSLG_nosel.
+    - rewrite H. apply enforcePSLG_nosel.
+    - rewrite H. apply enforcePSLG_nosel.
+    - rewrite H. apply enforcePSLG_nosel.
+    - rewrite H. apply enforcePSLG_nosel.
+    - apply andb_true_iff in H. destruct H as [H1 H2]. rewrite H1.
+      destruct (g_mirror_axis G x0 y0 x1 y1) as [[x p]|]; [apply enforcePSLG_nosel|discriminate].
+  Qed.
+
+  (* mi_addsegment: either the drawing is untouched (degenerate or duplicate request) or nothing is selected *)
+  Theorem addsegment_clears_selection fuel (st : drawingT) x0 y0 x1 y1 :
+    step G (S fuel) st (OAddSegment x0 y0 x1 y1) = st \/ nosel (step G (S fuel) st (OAddSegment x0 y0 x1 y1)).
+  Proof. cbn [step]. apply addSegment_clears_selection. Qed.
+
+  (* ---- the copies made by one pass of translateCopy / rotateCopy / mirrorCopy --------------------- *)
+  Definition resolve (nodes : list nodeT) (s : seg) :=
+    (node_at G nodes (s0 s), node_at G nodes (s1 s), ssel s, sgrp s, sprop s).
+  Definition sel_valid (st : drawingT) : Prop :=
+    forall s, In s (d_segs st) -> ssel s = true -> s0 s < NN st /\ s1 s < NN st.
+
+  Definition pair_img (fn : pt -> pt) (base : list nodeT) (ln : seg) : list nodeT :=
+    [copy_node fn (node_at G base (s0 ln)); copy_node fn (node_at G base (s1 ln))].
+  Definition seg_img (fn : pt -> pt) (base : list nodeT) (ln : seg) :=
+    (copy_node fn (node_at G base (s0 ln)), copy_node fn (node_at G base (s1 ln)), false, sgrp ln, sprop ln).
+
+  Definition node_block (fn : pt -> pt) (m : nat) (st : drawingT) : list nodeT :=
+    (if mode_nodes m then map (copy_node fn) (filter nsel (d_nodes st)) else []) ++
+    (if mode_lines m then flat_map (pair_img fn (d_nodes st)) (filter ssel (d_segs st)) else []).
+  Definition seg_block (fn : pt -> pt) (m : nat) (st : drawingT) :=
+    if mode_lines m then map (seg_img fn (d_nodes st)) (filter ssel (d_segs st)) else [].
+  Definition lab_block (fl : labT -> labT) (m : nat) (st : drawingT) : list labT :=
+    if mode_labels m then map (fun l => lsetsel false (fl l)) (filter lsel (d_labs st)) else [].
+
+  Lemma node_at_app_l (nodes more : list nodeT) i : i < length nodes -> node_at G (nodes ++ more) i = node_at G nodes i.
+  Proof. intros H. unfold node_at. apply app_nth1. exact H. Qed.
+  Lemma node_at_len (nodes : list nodeT) a more : node_at G (nodes ++ a :: more) (length nodes) = a.
+  Proof. unfold node_at. apply nth_middle. Qed.
+  Lemma node_at_len1 (nodes : list nodeT) a b more : node_at G (nodes ++ a :: b :: more) (S (length nodes)) = b.
+  Proof.
+    unfold node_at. replace (nodes ++ a :: b :: more) with ((nodes ++ [a]) ++ b :: more) by (rewrite <- app_assoc; reflexivity).
+    replace (S (length nodes)) with (length (nodes ++ [a])) by (rewrite app_length; cbn; lia). apply nth_middle.
+  Qed.
+  Lemma resolve_app_l (nodes more : list nodeT) x :
+    s0 x < length nodes -> s1 x < length nodes -> resolve (nodes ++ more) x = resolve nodes x.
+  Proof. intros A B. unfold resolve. rewrite !node_at_app_l by assumption. reflexivity. Qed.
+
+  Definition copy_line_step (fn : pt -> pt) (s : drawingT) (ln : seg) : drawingT :=
+    if ssel ln then
+      mkDrawing (d_nodes s ++ [copy_node fn (node_at G (d_nodes s) (s0 ln)); copy_node fn (node_at G (d_nodes s) (s1 ln))])
+                (d_segs s ++ [mkSeg (length (d_nodes s)) (S (length (d_nodes s))) false (sgrp ln) (sprop ln)])
+                (d_labs s) (d_oof s) (d_dsplit s)
+    else s.
+
+  Lemma copy_lines_aux fn (base : list nodeT) : forall (l : list seg) (s : drawingT),
+    (forall ln, In ln l -> ssel ln = true -> s0 ln < length base /\ s1 ln < length base) ->
+    (exists extra, d_nodes s = base ++ extra) ->
+    let r := fold_left (copy_line_step fn) l s in
+    exists app,
+      d_nodes r = d_nodes s ++ flat_map (pair_img fn base) (filter ssel l) /\
+      d_segs r = d_segs s ++ app /\
+      map (resolve (d_nodes r)) app = map (seg_img fn base) (filter ssel l) /\
+      (forall x, In x app -> s0 x < length (d_nodes r) /\ s1 x < length (d_nodes r) /\ ssel x = false) /\
+      d_labs r = d_labs s.
+  Proof.
+    induction l as [|a l IH]; intros s Hv [extra He]; cbn [fold_left].
+    - exists []. cbn. rewrite !app_nil_r.
+      split; [reflexivity|split; [reflexivity|split; [reflexivity|split; [intros x []|reflexivity]]]].
+    - cbv zeta. destruct (ssel a) eqn:Sa.
+      + destruct (Hv a (or_introl eq_refl) Sa) as [V0 V1].
+        set (A := copy_node fn (node_at G (d_nodes s) (s0 a))). set (B := copy_node fn (node_at G (d_nodes s) (s1 a))).
+        set (nw := mkSeg (length (d_nodes s)) (S (length (d_nodes s))) false (sgrp a) (sprop a)).
+        set (s' := mkDrawing (d_nodes s ++ [A; B]) (d_segs s ++ [nw]) (d_labs s) (d_oof s) (d_dsplit s)).
+        assert (Es : copy_line_step fn s a = s') by (unfold copy_line_step; rewrite Sa; reflexivity).
+        rewrite Es.
+        destruct (IH s') as (app & E1 & E2 & E3 & E4 & E5).
+        { intros ln Hl. apply Hv. right; exact Hl. }
+        { exists (extra ++ [A; B]). cbn. rewrite He, <- app_assoc. reflexivity. }
+        assert (EA : A = copy_node fn (node_at G base (s0 a))) by (unfold A; rewrite He, node_at_app_l; auto).
+        assert (EB : B = copy_node fn (node_at G base (s1 a))) by (unfold B; rewrite He, node_at_app_l; auto).
+        cbn [d_nodes d_segs d_labs s'] in E1, E2, E5.
+        exists (nw :: app).
+        cbn [filter]. rewrite Sa. cbn [flat_map map].
+        split; [|split; [|split; [|split]]].
+        * rewrite E1, <- app_assoc. unfold pair_img at 2. rewrite <- EA, <- EB. reflexivity.
+        * rewrite E2, <- app_assoc. reflexivity.
+        * f_equal; [|exact E3]. unfold resolve, seg_img, nw. cbn [s0 s1 ssel sgrp sprop]. rewrite E1.
+          rewrite <- app_assoc. cbn [List.app]. rewrite node_at_len, node_at_len1, EA, EB. reflexivity.
+        * intros x [<-|H]; [|apply E4, H]. unfold nw; cbn [s0 s1 ssel]. rewrite E1, !app_length. cbn. lia.
+        * exact E5.
+      + assert (Es : copy_line_step fn s a = s) by (unfold copy_line_step; rewrite Sa; reflexivity).
+        rewrite Es. cbn [filter]. rewrite Sa. apply IH; [|eauto]. intros ln Hl. apply Hv. right; exact Hl.
+  Qed.
+
+  Lemma copy_lines_unfold fn (st : drawingT) : copy_lines G fn st = fold_left (copy_line_step fn) (d_segs st) st.
+  Proof. reflexivity. Qed.
+
+  Theorem copy_pass_spec fn fl m (st : drawingT) :
+    sel_valid st ->
+    let r := copy_pass G fn fl m st in
+    d_nodes r = d_nodes st ++ node_block fn m st /\
+    (exists app, d_segs r = d_segs st ++ app /\
+                 map (resolve (d_nodes r)) app = seg_block fn m st /\
+                 (forall x, In x app -> s0 x < length (d_nodes r) /\ s1 x < length (d_nodes r) /\ ssel x = false)) /\
+    d_labs r = d_labs st ++ lab_block fl m st.
+  Proof.
+    intros V. unfold copy_pass, node_block, seg_block, lab_block.
+    set (st1 := if mode_nodes m then set_nodes st (d_nodes st ++ map (copy_node fn) (filter nsel (d_nodes st))) else st).
+    assert (N1 : d_nodes st1 = d_nodes st ++ (if mode_nodes m then map (copy_node fn) (filter nsel (d_nodes st)) else [])).
+    { unfold st1. destruct (mode_nodes m); cbn; [reflexivity|rewrite app_nil_r; reflexivity]. }
+    assert (S1 : d_segs st1 = d_segs st) by (unfold st1; destruct (mode_nodes m); reflexivity).
+    assert (L1 : d_labs st1 = d_labs st) by (unfold st1; destruct (mode_nodes m); reflexivity).
+    destruct (mode_lines m).
+    - rewrite copy_lines_unfold.
+      destruct (copy_lines_aux fn (d_nodes st) (d_segs st1) st1) as (app & E1 & E2 & E3 & E4 & E5).
+      { rewrite S1. intros ln Hl Sl. apply V; auto. }
+      { eexists. exact N1. }
+      set (st2 := fold_left (copy_line_step fn) (d_segs st1) st1) in *.
+      assert (N2 : d_nodes (if mode_labels m then set_labs st2 (d_labs st2 ++ map (fun l => lsetsel false (fl l)) (filter lsel (d_labs st2))) else st2)
+                   = d_nodes st2) by (destruct (mode_labels m); reflexivity).
+      assert (S2 : d_segs (if mode_labels m then set_labs st2 (d_labs st2 ++ map (fun l => lsetsel false (fl l)) (filter lsel (d_labs st2))) else st2)
+                   = d_segs st2) by (destruct (mode_labels m); reflexivity).
+      cbv zeta. rewrite N2, S2. split; [|split].
+      + rewrite E1, N1, S1, <- app_assoc. reflexivity.
+      + exists app. rewrite E2, S1. rewrite S1 in E3. split; [reflexivity|split; [exact E3|exact E4]].
+      + destruct (mode_labels m); cbn; rewrite E5, L1; [reflexivity|rewrite app_nil_r; reflexivity].
+    - cbv zeta. split; [|split].
+      + destruct (mode_labels m); cbn; rewrite N1, app_nil_r; reflexivity.
+      + exists []. destruct (mode_labels m); cbn; rewrite S1, app_nil_r; (split; [reflexivity|split; [reflexivity|intros x []]]).
+      + destruct (mode_labels m); cbn; rewrite L1; [reflexivity|rewrite app_nil_r; reflexivity].
+  Qed.
+
+  (* ---- several passes (ncopies): every pass copies the ORIGINAL selection ------------------------ *)
+  Lemma flat_map_ext_in' {A B} (f g : A -> list B) (l : list A) :
+    (forall a, In a l -> f a = g a) -> flat_map f l = flat_map g l.
+  Proof.
+    induction l as [|a l IH]; cbn; intros H; auto. rewrite H by (left; auto). f_equal. apply IH. intros; apply H; right; auto.
+  Qed.
+
+  Lemma filter_nil {A} (f : A -> bool) (l : list A) : (forall a, In a l -> f a = false) -> filter f l = [].
+  Proof.
+    induction l as [|a l IH]; cbn; intros H; auto. rewrite H by (left; auto). apply IH. intros; apply H; right; auto.
+  Qed.
+
+  Lemma node_block_unsel fn m (st : drawingT) : filter nsel (node_block fn m st) = [].
+  Proof.
+    apply filter_nil. intros a Ha. unfold node_block in Ha. apply in_app_or in Ha. destruct Ha as [Ha|Ha].
+    - destruct (mode_nodes m); [|destruct Ha]. apply in_map_iff in Ha. destruct Ha as [b [<- _]]. reflexivity.
+    - destruct (mode_lines m); [|destruct Ha]. apply in_flat_map in Ha. destruct Ha as [b [_ Hb]].
+      destruct Hb as [<-|[<-|[]]]; reflexivity.
+  Qed.
+
+  Definition same_selection (st st' : drawingT) : Prop :=
+    (exists more, d_nodes st' = d_nodes st ++ more /\ filter nsel more = []) /\
+    (exists app, d_segs st' = d_segs st ++ app /\ filter ssel app = []) /\
+    (exists ml, d_labs st' = d_labs st ++ ml /\ filter lsel ml = []).
+
+  Lemma blocks_same_selection fn fl m (st st' : drawingT) :
+    sel_valid st -> same_selection st st' ->
+    node_block fn m st' = node_block fn m st /\ seg_block fn m st' = seg_block fn m st /\
+    lab_block fl m st' = lab_block fl m st.
+  Proof.
+    intros V ((more & N & Nf) & (app & S & Sf) & (ml & L & Lf)).
+    assert (FN : filter nsel (d_nodes st') = filter nsel (d_nodes st)) by (rewrite N, filter_app, Nf, app_nil_r; reflexivity).
+    assert (FS : filter ssel (d_segs st') = filter ssel (d_segs st)) by (rewrite S, filter_app, Sf, app_nil_r; reflexivity).
+    assert (FL : filter lsel (d_labs st') = filter lsel (d_labs st)) by (rewrite L, filter_app, Lf, app_nil_r; reflexivity).
+    assert (VI : forall a, In a (filter ssel (d_segs st)) -> s0 a < length (d_nodes st) /\ s1 a < length (d_nodes st)).
+    { intros a Ha. apply filter_In in Ha. apply V; tauto. }
+    unfold node_block, seg_block, lab_block. rewrite FN, FS, FL. repeat split.
+    - f_equal. destruct (mode_lines m); auto. apply flat_map_ext_in'. intros a Ha. destruct (VI a Ha).
+      unfold pair_img. rewrite N, !node_at_app_l by assumption. reflexivity.
+    - destruct (mode_lines m); auto. apply map_ext_in. intros a Ha. destruct (VI a Ha).
+      unfold seg_img. rewrite N, !node_at_app_l by assumption. reflexivity.
+  Qed.
+
+  Definition passes (fs : list ((pt -> pt) * (labT -> labT))) (m : nat) (st : drawingT) : drawingT :=
+    fold_left (fun s f => copy_pass G (fst f) (snd f) m s) fs st.
+
+  Theorem passes_spec m (fs : list ((pt -> pt) * (labT -> labT))) : forall (st : drawingT),
+    sel_valid st ->
+    let r := passes fs m st in
+    d_nodes r = d_nodes st ++ flat_map (fun f => node_block (fst f) m st) fs /\
+    (exists app, d_segs r = d_segs st ++ app /\
+                 map (resolve (d_nodes r)) app = flat_map (fun f => seg_block (fst f) m st) fs /\
+                 (forall x, In x app -> s0 x < length (d_nodes r) /\ s1 x < length (d_nodes r) /\ ssel x = false)) /\
+    d_labs r = d_labs st ++ flat_map (fun f => lab_block (snd f) m st) fs.
+  Proof.
+    unfold passes. induction fs as [|f fs IH]; intros st V; cbn [fold_left flat_map].
+    - cbv zeta. rewrite !app_nil_r. split; [reflexivity|split; [|reflexivity]].
+      exists []. rewrite app_nil_r. split; [reflexivity|split; [reflexivity|intros x []]].
+    - destruct (copy_pass_spec (fst f) (snd f) m st V) as (N1 & (app1 & S1 & R1 & B1) & L1).
+      set (st' := copy_pass G (fst f) (snd f) m st) in *.
+      assert (US : filter ssel app1 = []).
+      { apply filter_nil. intros a Ha. apply B1, Ha. }
+      assert (SS : same_selection st st').
+      { split; [|split].
+        - exists (node_block (fst f) m st). split; [exact N1|apply node_block_unsel].
+        - exists app1. split; [exact S1|exact US].
+        - exists (lab_block (snd f) m st). split; [exact L1|]. apply filter_nil. intros a Ha.
+          unfold lab_block in Ha. destruct (mode_labels m); [|destruct Ha].
+          apply in_map_iff in Ha. destruct Ha as [b [<- _]]. reflexivity. }
+      assert (V' : sel_valid st').
+      { intros x Hx Sx. rewrite S1 in Hx. apply in_app_or in Hx. destruct Hx as [Hx|Hx].
+        - destruct (V x Hx Sx) as [P Q]. unfold NN in *. rewrite N1, app_length. lia.
+        - destruct (B1 x Hx) as (_ & _ & C). congruence. }
+      destruct (IH st' V') as (N2 & (app2 & S2 & R2 & B2) & L2). cbv zeta in *.
+      set (r := fold_left (fun s f0 => copy_pass G (fst f0) (snd f0) m s) fs st') in *.
+      assert (BL : forall g, node_block (fst g) m st' = node_block (fst g) m st /\
+                             seg_block (fst g) m st' = seg_block (fst g) m st /\
+                             lab_block (snd g) m st' = lab_block (snd g) m st)
+        by (intros g; apply blocks_same_selection; auto).
+      assert (F1 : flat_map (fun g => node_block (fst g) m st') fs = flat_map (fun g => node_block (fst g) m st) fs)
+        by (apply flat_map_ext; intros g; apply BL).
+      assert (F2 : flat_map (fun g => seg_block (fst g) m st') fs = flat_map (fun g => seg_block (fst g) m st) fs)
+        by (apply flat_map_ext; intros g; apply BL).
+      assert (F3 : flat_map (fun g => lab_block (snd g) m st') fs = flat_map (fun g => lab_block (snd g) m st) fs)
+        by (apply flat_map_ext; intros g; apply BL).
+      rewrite F1 in N2. rewrite F2 in R2. rewrite F3 in L2.
+      split; [|split].
+      + rewrite N2, N1, <- app_assoc. reflexivity.
+      + exists (app1 ++ app2). split; [rewrite S2, S1, <- app_assoc; reflexivity|]. split.
+        * rewrite map_app, R2. f_equal. rewrite <- R1. apply map_ext_in. intros x Hx.
+          destruct (B1 x Hx) as (X0 & X1 & _). rewrite N2. apply resolve_app_l; assumption.
+        * intros x Hx. apply in_app_or in Hx. destruct Hx as [Hx|Hx]; [|apply B2, Hx].
+          destruct (B1 x Hx) as (X0 & X1 & X2). rewrite N2, app_length. repeat split; [lia|lia|exact X2].
+      + rewrite L2, L1, <- app_assoc. reflexivity.
+  Qed.
+
+  Lemma translateCopy_raw_passes dx dy n m (st : drawingT) :
+    translateCopy_raw G dx dy n m st =
+    passes (map (fun nc => (g_translate G (g_times G nc dx) (g_times G nc dy),
+                            fun l : labT => lsetpt (g_translate G (g_times G nc dx) (g_times G nc dy) (lpt l)) l)) (seq 0 n)) m st.
+  Proof.
+    unfold translateCopy_raw, passes. generalize (seq 0 n) as l. intros l. revert st.
+    induction l as [|a l IH]; cbn; intros st; auto.
+  Qed.
+
+  Lemma rotateCopy_raw_passes c zs m (st : drawingT) :
+    rotateCopy_raw G c zs m st =
+    passes (map (fun z => (g_rotate G c z, fun l : labT => lsetpt (g_rotate G c z (lpt l)) l)) zs) m st.
+  Proof.
+    unfold rotateCopy_raw, passes. revert st. induction zs as [|a l IH]; cbn; intros st; auto.
+  Qed.
+
+  Lemma WF_sel_valid (st : drawingT) : WF st -> sel_valid st.
+  Proof.
+    intros W s Hs _. unfold WF in W. rewrite Forall_forall in W. destruct (W s Hs) as (A & B & _). auto.
+  Qed.
+
+  (* translateCopy before its enforcePSLG: what is appended, for every reading of the oracles *)
+  Theorem translateCopy_raw_spec dx dy n m (st : drawingT) :
+    WF st ->
+    let tr nc := g_translate G (g_times G nc dx) (g_times G nc dy) in
+    let r := translateCopy_raw G dx dy n m st in
+    d_nodes r = d_nodes st ++ flat_map (fun nc => node_block (tr nc) m st) (seq 0 n) /\
+    (exists app, d_segs r = d_segs st ++ app /\
+                 map (resolve (d_nodes r)) app = flat_map (fun nc => seg_block (tr nc) m st) (seq 0 n)) /\
+    d_labs r = d_labs st ++ flat_map (fun nc => lab_block (fun l => lsetpt (tr nc (lpt l)) l) m st) (seq 0 n).
+  Proof.
+    intros W. cbv zeta. rewrite translateCopy_raw_passes.
+    destruct (passes_spec m (map (fun nc => (g_translate G (g_times G nc dx) (g_times G nc dy),
+                            fun l : labT => lsetpt (g_translate G (g_times G nc dx) (g_times G nc dy) (lpt l)) l)) (seq 0 n))
+                          st (WF_sel_valid st W)) as (A & (app & B1 & B2 & _) & C).
+    cbv zeta in *. rewrite !flat_map_concat_map, map_map in A, B2, C. cbn [fst snd] in A, B2, C.
+    rewrite <- !flat_map_concat_map in A, B2, C.
+    split; [exact A|split; [exists app; split; [exact B1|exact B2]|exact C]].
+  Qed.
+
+  (* the copies carry the original's group and properties, are unselected, and sit at the image *)
+  Lemma copy_node_fields fn (n : nodeT) :
+    npt (copy_node fn n) = fn (npt n) /\ ngrp (copy_node fn n) = ngrp n /\ nprop (copy_node fn n) = nprop n /\
+    nsel (copy_node fn n) = false.
+  Proof. unfold copy_node, npt; cbn. destruct (fn (nx n, ny n)); auto. Qed.
+
+  Lemma copy_lab_fields (fp : pt -> pt) (l : labT) :
+    lpt (lsetsel false (lsetpt (fp (lpt l)) l)) = fp (lpt l) /\
+    lgrp (lsetsel false (lsetpt (fp (lpt l)) l)) = lgrp l /\ lprop (lsetsel false (lsetpt (fp (lpt l)) l)) = lprop l /\
+    larea (lsetsel false (lsetpt (fp (lpt l)) l)) = larea l /\ lsel (lsetsel false (lsetpt (fp (lpt l)) l)) = false.
+  Proof. unfold lpt; cbn. destruct (fp (lx l, ly l)); auto. Qed.
+
+  Lemma node_block_ext fn fn' m (st : drawingT) : (forall p, fn p = fn' p) -> node_block fn m st = node_block fn' m st.
+  Proof.
+    intros E. unfold node_block. f_equal.
+    - destruct (mode_nodes m); auto. apply map_ext. intros n. unfold copy_node. rewrite E. reflexivity.
+    - destruct (mode_lines m); auto. apply flat_map_ext. intros a. unfold pair_img, copy_node. rewrite !E. reflexivity.
+  Qed.
+  Lemma seg_block_ext fn fn' m (st : drawingT) : (forall p, fn p = fn' p) -> seg_block fn m st = seg_block fn' m st.
+  Proof.
+    intros E. unfold seg_block. destruct (mode_lines m); auto. apply map_ext. intros a.
+    unfold seg_img, copy_node. rewrite !E. reflexivity.
+  Qed.
+  Lemma lab_block_ext (fp fp' : pt -> pt) m (st : drawingT) :
+    (forall p, fp p = fp' p) ->
+    lab_block (fun l => lsetpt (fp (lpt l)) l) m st = lab_block (fun l => lsetpt (fp' (lpt l)) l) m st.
+  Proof.
+    intros E. unfold lab_block. destruct (mode_labels m); auto. apply map_ext. intros a. rewrite E. reflexivity.
+  Qed.
+
+  (* ---- the metric guarantee of ONE command: after enforcePSLG all points are pairwise at least
+     that command's tolerance apart (as the oracle tests it: earlier point against later point) --- *)
+  Definition ptsof (st : drawingT) : list pt := map npt (d_nodes st).
+  Definition far (d : F) (pts : list pt) : Prop :=
+    forall i j, i < j -> j < length pts ->
+      g_lt G (g_dist G (nth i pts (g_zero G, g_zero G)) (nth j pts (g_zero G, g_zero G))) d = false.
+
+  Lemma far_snoc d pts q :
+    far d pts -> (forall p, In p pts -> g_lt G (g_dist G p q) d = false) -> far d (pts ++ [q]).
+  Proof.
+    intros Hf Hq i j Hij Hj. rewrite app_length in Hj. cbn in Hj.
+    destruct (Nat.eq_dec j (length pts)) as [->|Hn].
+    - rewrite nth_middle. rewrite app_nth1 by lia. apply Hq. apply nth_In. lia.
+    - rewrite !app_nth1 by lia. apply Hf; lia.
+  Qed.
+
+  Lemma far_addNode d (st : drawingT) nd : far d (ptsof st) -> far d (ptsof (addNode G st nd d)).
+  Proof.
+    intros H. destruct (addNode_cases st nd d) as [[-> _]|[-> [A _]]]; auto.
+    unfold ptsof, addNode_added; cbn. rewrite map_app. cbn. apply far_snoc; auto.
+    intros p Hp. apply in_map_iff in Hp. destruct Hp as [n [<- Hn]].
+    destruct (g_lt G (g_dist G (npt n) (npt nd)) d) eqn:X; auto.
+    assert (existsb (near_node G (npt nd) d) (d_nodes st) = true) by (apply existsb_exists; eauto). congruence.
+  Qed.
+
+  Lemma far_fold_addNode {X} (mk : X -> nodeT) d (xs : list X) : forall (st : drawingT),
+    far d (ptsof st) -> far d (ptsof (fold_left (fun s x => addNode G s (mk x) d) xs st)).
+  Proof. induction xs as [|x xs IH]; cbn; intros st H; auto. apply IH, far_addNode, H. Qed.
+
+  Lemma ptsof_unselectAll (st : drawingT) : ptsof (unselectAll st) = ptsof st.
+  Proof. unfold ptsof, unselectAll; cbn. rewrite map_map. apply map_ext. intros n. reflexivity. Qed.
+
+  Lemma addSegment_far d : g_is0 G d = false -> forall fuel (st : drawingT) n0 n1 par,
+    far d (ptsof st) -> far d (ptsof (addSegment G fuel st n0 n1 par d)).
+  Proof.
+    intros Z. induction fuel as [|fuel IH]; intros st n0 n1 par H; [exact H|].
+    rewrite addSegment_S. destruct (Nat.eqb n0 n1); auto. destruct (dup_in n0 n1 (d_segs st)); auto.
+    cbv zeta.
+    assert (H3 : far d (ptsof (as_st3 st n0 n1 par d))).
+    { unfold as_st3. rewrite ptsof_unselectAll. unfold ptsof; cbn. fold (ptsof (as_st1 st n0 n1 d)).
+      unfold as_st1, as_tol. rewrite Z. apply far_fold_addNode. exact H. }
+    assert (D : as_dmin st n0 n1 par d = d) by (unfold as_dmin; rewrite Z; reflexivity).
+    rewrite D. destruct (find_first _ 0 _); [apply IH, IH; exact H3|exact H3].
+  Qed.
+
+  Lemma fold_addSegment_far fuel d (cl : drawingT -> seg -> nat * nat) (ls : list seg) : g_is0 G d = false ->
+    forall (st : drawingT), far d (ptsof st) ->
+    far d (ptsof (fold_left (fun s ln => addSegment G fuel s (fst (cl s ln)) (snd (cl s ln)) (Some ln) d) ls st)).
+  Proof.
+    intros Z. induction ls as [|l ls IH]; cbn; intros st H; auto. apply IH. apply addSegment_far; auto.
+  Qed.
+
+  Theorem enforcePSLG_min_distance fuel (st : drawingT) :
+    g_is0 G (auto_tol G (d_nodes st)) = false ->
+    far (auto_tol G (d_nodes st)) (ptsof (enforcePSLG G fuel st)).
+  Proof.
+    intros Z. unfold enforcePSLG. set (d := auto_tol G (d_nodes st)) in *.
+    set (st0 := mkDrawing [] [] [] (d_oof st) (d_dsplit st)).
+    set (st1 := fold_left (fun s nd => addNode G s nd d) (d_nodes st) st0).
+    assert (F1 : far d (ptsof st1)).
+    { apply (far_fold_addNode (fun nd : nodeT => nd)). intros i j _ Hj. cbn in Hj. lia. }
+    pose proof (fold_addSegment_far fuel d
+                  (fun s ln => (closestNode G s (pt_at G (d_nodes st) (s0 ln)), closestNode G s (pt_at G (d_nodes st) (s1 ln))))
+                  (d_segs st) Z st1 F1) as F2.
+    cbn [fst snd] in F2.
+    match type of F2 with far d (ptsof ?x) => set (st2 := x) in * end.
+    destruct (fold_addBlockLabel d (d_labs st) st2) as (A & _).
+    rewrite ptsof_unselectAll. unfold ptsof. rewrite A. exact F2.
+  Qed.
+
+  (* boolean forms of the invariants, for the refutations by evaluation *)
+  Definition wfb (st : drawingT) : bool :=
+    forallb (fun s => Nat.ltb (s0 s) (NN st) && Nat.ltb (s1 s) (NN st) && negb (Nat.eqb (s0 s) (s1 s))) (d_segs st).
+  Lemma WF_wfb (st : drawingT) : WF st -> wfb st = true.
+  Proof.
+    unfold WF, wfb. intros W. apply forallb_forall. intros s Hs. rewrite Forall_forall in W.
+    destruct (W s Hs) as (A & B & C). apply Nat.ltb_lt in A, B. apply Nat.eqb_neq in C. rewrite A, B, C. reflexivity.
+  Qed.
 End Generic.
+
+Definition sameb (s t : seg) : bool :=
+  (Nat.eqb (s0 s) (s0 t) && Nat.eqb (s1 s) (s1 t)) || (Nat.eqb (s0 s) (s1 t) && Nat.eqb (s1 s) (s0 t)).
+Fixpoint nodupb (l : list seg) : bool :=
+  match l with [] => true | s :: r => negb (existsb (sameb s) r) && nodupb r end.
+Lemma NoDupSeg_nodupb l : NoDupSeg l -> nodupb l = true.
+Proof.
+  induction l as [|a l IH]; cbn; auto. intros [H1 H2]. rewrite IH by auto. rewrite andb_true_r.
+  apply negb_true_iff. destruct (existsb (sameb a) l) eqn:E; auto.
+  apply existsb_exists in E. destruct E as [t [Ht S]]. rewrite Forall_forall in H1. exfalso. apply (H1 t Ht).
+  unfold sameb in S. unfold same_seg. apply orb_true_iff in S.
+  destruct S as [S|S]; apply andb_true_iff in S; destruct S as [A B]; apply Nat.eqb_eq in A, B; auto.
+Qed.
+
+(* ------------------------------------------------------------------------------------- *)
+(* the real-number reading *)
+Section RealReading.
+  Local Open Scope R_scope.
+  Local Notation nodeR := (@node R).
+  Local Notation drawingR := (@drawing R).
+
+  Lemma translate_real (dx dy : R) (nc : nat) (p : R * R) :
+    g_translate (geoA RA) (g_times (geoA RA) nc dx) (g_times (geoA RA) nc dy) p =
+    (fst p + INR (S nc) * dx, snd p + INR (S nc) * dy).
+  Proof.
+    cbn [g_translate g_times geoA]. unfold f_translate, ofnat. ra_simpl. rewrite <- INR_IZR_INZ. reflexivity.
+  Qed.
+
+  (* translateCopy before enforcePSLG, real reading: copy nc of an entity sits exactly at the
+     entity's place translated by (nc+1)*(dx,dy) *)
+  Theorem copies_at_transformed_coordinates (dx dy : R) (n m : nat) (st : drawingR) :
+    WF st ->
+    let tr (nc : nat) (p : R * R) := (fst p + INR (S nc) * dx, snd p + INR (S nc) * dy) in
+    let r := translateCopy_raw (geoA RA) dx dy n m st in
+    d_nodes r = d_nodes st ++ flat_map (fun nc => node_block (geoA RA) (tr nc) m st) (seq 0 n) /\
+    (exists app, d_segs r = d_segs st ++ app /\
+                 map (resolve (geoA RA) (d_nodes r)) app = flat_map (fun nc => seg_block (geoA RA) (tr nc) m st) (seq 0 n)) /\
+    d_labs r = d_labs st ++ flat_map (fun nc => lab_block (fun l => lsetpt (tr nc (lpt l)) l) m st) (seq 0 n).
+  Proof.
+    intros W. cbv zeta. destruct (translateCopy_raw_spec (geoA RA) dx dy n m st W) as (A & (app & B1 & B2) & C).
+    cbv zeta in *.
+    assert (E : forall nc p, g_translate (geoA RA) (g_times (geoA RA) nc dx) (g_times (geoA RA) nc dy) p =
+                             (fst p + INR (S nc) * dx, snd p + INR (S nc) * dy)) by (intros; apply translate_real).
+    split; [|split].
+    - rewrite A. f_equal. apply flat_map_ext. intros nc. apply node_block_ext. apply E.
+    - exists app. split; [exact B1|]. rewrite B2. apply flat_map_ext. intros nc. apply seg_block_ext. apply E.
+    - rewrite C. f_equal. apply flat_map_ext. intros nc.
+      apply (lab_block_ext (g_translate (geoA RA) (g_times (geoA RA) nc dx) (g_times (geoA RA) nc dy))
+                           (fun p => (fst p + INR (S nc) * dx, snd p + INR (S nc) * dy))). apply E.
+  Qed.
+
+  (* addNode, real reading: a point that is added is at least d away from every existing point
+     and block label (for the d of that call) *)
+  Theorem addNode_min_distance_real (st : drawingR) (nd : nodeR) (d : R) :
+    length (d_nodes (addNode (geoA RA) st nd d)) <> length (d_nodes st) ->
+    (forall n, In n (d_nodes st) -> d <= R_sqrt.sqrt ((nx n - nx nd) * (nx n - nx nd) + (ny n - ny nd) * (ny n - ny nd))) /\
+    (forall l, In l (d_labs st) -> d <= R_sqrt.sqrt ((lx l - nx nd) * (lx l - nx nd) + (ly l - ny nd) * (ly l - ny nd))).
+  Proof.
+    intros H. destruct (addNode_respects_distance (geoA RA) st nd d H) as (_ & A & B). split.
+    - intros n Hn. specialize (A n Hn). cbn [g_lt g_dist geoA] in A. unfold f_dist, npt in A. cbn [fst snd] in A. ra_simpl.
+      apply Rltb_false in A. apply Rnot_lt_le. exact A.
+    - intros l Hl. specialize (B l Hl). cbn [g_lt g_dist geoA] in B. unfold f_dist, npt, lpt in B. cbn [fst snd] in B. ra_simpl.
+      apply Rltb_false in B. apply Rnot_lt_le. exact B.
+  Qed.
+
+  (* real reading of [far]: earlier/later points are at least d apart *)
+  Lemma far_real (d : R) (pts : list (R * R)) :
+    far (geoA RA) d pts ->
+    forall i j, (i < j)%nat -> (j < length pts)%nat ->
+      d <= R_sqrt.sqrt ((fst (nth i pts (0, 0)) - fst (nth j pts (0, 0))) * (fst (nth i pts (0, 0)) - fst (nth j pts (0, 0))) +
+                        (snd (nth i pts (0, 0)) - snd (nth j pts (0, 0))) * (snd (nth i pts (0, 0)) - snd (nth j pts (0, 0)))).
+  Proof.
+    intros H i j Hij Hj. specialize (H i j Hij Hj). cbn [g_lt g_dist g_zero geoA] in H. unfold f_dist in H.
+    ra_simpl. apply Rltb_false in H. apply Rnot_lt_le. exact H.
+  Qed.
+End RealReading.
+
+(* ------------------------------------------------------------------------------------- *)
+(* refutations of the naive global claims, by evaluating the binary64 reading of the model *)
+Section Refutations.
+  Local Open Scope float_scope.
+  Local Notation opF := (@op float).
+
+  (* F1: mi_selectsegment + mi_selectnode + mi_deleteselectednodes: the segment that was already
+     selected is toggled OFF by deleteSelectedNodes, survives, and now joins point 0 with itself *)
+  Definition ops_F1 : list opF :=
+    [OAddNode 0 0; OAddNode 1 0; OAddSegment 0 0 1 0; OSelectSegment 0x1p-1 0; OSelectNode 0 0; ODeleteSelectedNodes].
+  Lemma wf_unguarded_refuted : exists ops : list opF, ~ WF (run (geoA FA) FUEL ops empty).
+  Proof.
+    exists ops_F1. intros W. apply WF_wfb in W. revert W. vm_compute. discriminate.
+  Qed.
+  Lemma F1_final_state :
+    map (fun s => (s0 s, s1 s)) (d_segs (run (geoA FA) FUEL ops_F1 empty)) = [(0, 0)%nat] /\
+    length (d_nodes (run (geoA FA) FUEL ops_F1 empty)) = 1%nat.
+  Proof. vm_compute. auto. Qed.
+
+  (* F2: a point within the tolerance of two segments that share an end point splits both:
+     the two first halves are the same segment *)
+  Definition ops_F2 : list opF :=
+    [OAddNode 0 0; OAddNode 1 0; OAddNode 1 0x1.4f8b588e368f1p-16;
+     OAddSegment 0 0 1 0; OAddSegment 0 0 1 0x1.4f8b588e368f1p-16;
+     OAddNode 0x1.999999999999ap-5 0x1.0c6f7a0b5ed8dp-21].
+  Lemma nodup_unflagged_refuted :
+    exists ops : list opF, guarded (geoA FA) FUEL empty ops /\ ~ NoDupSeg (d_segs (run (geoA FA) FUEL ops empty)).
+  Proof.
+    exists ops_F2. split.
+    - apply guarded_no_delnodes. reflexivity.
+    - intros N. apply NoDupSeg_nodupb in N. revert N. vm_compute. discriminate.
+  Qed.
+  Lemma F2_final_state :
+    map (fun s => (s0 s, s1 s)) (d_segs (run (geoA FA) FUEL ops_F2 empty)) = [(0, 3); (0, 3); (3, 1); (3, 2)]%nat /\
+    d_dsplit (run (geoA FA) FUEL ops_F2 empty) = true.
+  Proof. vm_compute. auto. Qed.
+
+  (* F3: "no two points closer than the snap tolerance" is not an invariant: the tolerance is
+     recomputed from the bounding box by every command, earlier points are never re-examined *)
+  Definition snap_ok (st : @drawing float) : bool :=
+    let d := auto_tol (geoA FA) (d_nodes st) in
+    (fix go (l : list (@node float)) : bool :=
+       match l with
+       | [] => true
+       | a :: r => forallb (fun b => negb (g_lt (geoA FA) (g_dist (geoA FA) (npt a) (npt b)) d)) r && go r
+       end) (d_nodes st).
+  Definition ops_F3 : list opF := [OAddNode 0 0; OAddNode 0x1.ad7f29abcaf48p-24 0; OAddNode 1000 0].
+  Lemma snap_tolerance_global_refuted :
+    exists ops : list opF, guarded (geoA FA) FUEL empty ops /\ snap_ok (run (geoA FA) FUEL ops empty) = false.
+  Proof.
+    exists ops_F3. split; [apply guarded_no_delnodes; reflexivity|]. vm_compute. reflexivity.
+  Qed.
+
+  (* F6: when all points of the drawing handed to enforcePSLG coincide its tolerance is 0 and nothing
+     is merged: two points stay at the same place (and the segment between them is dropped) *)
+  Definition distinct_pts (st : @drawing float) : bool :=
+    (fix go (l : list (@node float)) : bool :=
+       match l with
+       | [] => true
+       | a :: r => forallb (fun b => negb (PrimFloat.eqb (nx a) (nx b) && PrimFloat.eqb (ny a) (ny b))) r && go r
+       end) (d_nodes st).
+  Definition ops_F6 : list opF :=
+    [OAddNode 0 0; OAddNode 1 0; OAddSegment 0 0 1 0; OSelectNode 0 0; OMoveTranslate 1 0 0].
+  Lemma coincident_points_refuted :
+    exists ops : list opF,
+      guarded (geoA FA) FUEL empty ops /\ (distinct_pts (run (geoA FA) FUEL ops empty) = false) /\
+      (length (d_segs (run (geoA FA) FUEL ops empty)) = 0%nat).
+  Proof.
+    exists ops_F6. split; [apply guarded_no_delnodes; reflexivity|]. vm_compute. auto.
+  Qed.
+
+  (* non-vacuity: a reachable drawing with segments, on which every hypothesis used above holds *)
+  Definition ops_ex : list opF :=
+    [OAddNode 0 0; OAddNode 2 0; OAddNode 1 0; OAddNode 1 1; OAddSegment 0 0 2 0; OAddSegment 1 0 1 1;
+     OSelectSegment 1 0x1p-1; OCopyTranslate 0 1 2 1].
+  Lemma example_reachable :
+    guarded (geoA FA) FUEL empty ops_ex /\
+    length (d_segs (run (geoA FA) FUEL ops_ex empty)) = 5%nat /\
+    length (d_nodes (run (geoA FA) FUEL ops_ex empty)) = 6%nat /\
+    d_dsplit (run (geoA FA) FUEL ops_ex empty) = false /\ d_oof (run (geoA FA) FUEL ops_ex empty) = false.
+  Proof. split; [apply guarded_no_delnodes; reflexivity|]. vm_compute. auto. Qed.
+
+  (* the hypotheses of the deletion, copy and metric theorems hold on that reachable drawing *)
+  Lemma example_hypotheses :
+    let st := run (geoA FA) FUEL ops_ex empty in
+    WF st /\ segs_unselected st /\ sel_valid st /\ g_is0 (geoA FA) (auto_tol (geoA FA) (d_nodes st)) = false.
+  Proof.
+    cbv zeta.
+    assert (W : WF (run (geoA FA) FUEL ops_ex empty)).
+    { apply wf_reachable. apply guarded_no_delnodes. reflexivity. }
+    split; [exact W|]. split; [|split; [apply WF_sel_valid; exact W|vm_compute; reflexivity]].
+    intros s Hs.
+    assert (E : forallb (fun s => negb (ssel s)) (d_segs (run (geoA FA) FUEL ops_ex empty)) = true) by (vm_compute; reflexivity).
+    rewrite forallb_forall in E. apply negb_true_iff. apply E. exact Hs.
+  Qed.
+End Refutations.
